@@ -53,8 +53,9 @@ def judge(spec, obs):
         if res is None or len(res) != len(c["calls"]):
             return f"client {cid}: {0 if res is None else len(res)} outcomes for {len(c['calls'])} calls"
         for k, (call, r) in enumerate(zip(c["calls"], res)):
-            if c["server"] in ("refuse", "needpw"):
-                want = {"refuse": ("ConnectionRefusedError", "ConnectError"), "needpw": ("AuthenticationError",)}[c["server"]]
+            if c["server"] in ("refuse", "needpw", "unixstale"):
+                want = {"refuse": ("ConnectionRefusedError", "ConnectError"), "needpw": ("AuthenticationError",),
+                        "unixstale": ("ConnectionRefusedError", "ConnectError")}[c["server"]]
                 if r[0] != "raise" or r[1] not in want:
                     return (f"client {cid} (connection cannot be established: {c['server']}), call #{k} {call['method']}: "
                             f"{'blocked until the timeout' if r[0] == 'blocked' else r[:2]} - every call must raise the connection "
@@ -97,7 +98,7 @@ def run(tier, seed, model):
     n = 14 if tier == "quick" else 120
     specs = []
     for i in range(n):
-        kinds = ["one", "two", "refuse", "needpw", "mixed", "burst", "frames", "two", "one", "burst", "frames"]
+        kinds = ["one", "two", "refuse", "needpw", "mixed", "burst", "frames", "unixstale", "straddle", "two", "one", "burst", "frames"]
         kind = kinds[i] if i < len(kinds) else rng.choice(kinds)
         clients = []
         if kind == "burst":
@@ -109,7 +110,14 @@ def run(tier, seed, model):
         elif kind == "two":
             clients.append({"id": 1, "server": rng.choice(["ok", "slow"]), "calls": gen_calls(rng, 100, rng.randrange(3, 10))})
             clients.append({"id": 2, "server": rng.choice(["ok", "slow"]), "calls": gen_calls(rng, 500, rng.randrange(3, 10))})
-        elif kind in ("refuse", "needpw"):
+        elif kind == "straddle":
+            # api.connect(timeout=T) bounds each CALL: an operation in flight T seconds after the connection was made is not
+            # affected by that instant
+            calls = gen_calls(rng, 100, 2)
+            calls.append({"method": "probe_slow", "args": [777, 1.6], "sleep": 3.0, "exp": ["ret", 777], "async": 1})
+            calls += gen_calls(rng, 200, 2)
+            clients.append({"id": 1, "server": "ok", "calls": calls})
+        elif kind in ("refuse", "needpw", "unixstale"):
             # several calls, among them real API operations that do not touch the client object much (pause)
             calls = gen_calls(rng, 100, 3)
             calls.insert(rng.randrange(1, 4), {"method": "pause", "args": [0.01], "sleep": 0, "exp": ["raise", None], "async": 0})
@@ -154,6 +162,8 @@ def run(tier, seed, model):
             ops = [[call["async"], (call["exp"][1] if call["exp"][1] is not None else 0) * (1 if call["exp"][0] == "ret" else -1)]
                    for call in c["calls"]]
             up = c["server"] in ("ok", "slow")
+            if c["server"] == "unixstale":
+                continue
             evs = [3 if up else 4]
             for call in c["calls"]:
                 evs += [0, 2] + ([5] if (call["async"] and up) else []) + [1]
